@@ -31,6 +31,7 @@ import multiprocessing as mp
 import random
 import re
 import sys
+import time
 
 from harness import core, values as V, diffcommon as D
 
@@ -1647,9 +1648,280 @@ def io_stream(ctx, n):
 
 
 # --------------------------------------------------------------------------
+# source tie (round 5): DeepDiff._skip_this / _skip_this_key, DeepHash._skip_this, add_root_to_paths and
+# convert_item_or_items_into_set_else_none are re-translated from the CURRENT source on every run
+# (harness/translate/skipthis.py -> DDGen.FilterGen) and proved equal to the hand-written model
+# (coq/srctie/FilterGenEquiv.v).  When that tie is not intact: the run assembled from the generated parts and
+# the hand-written run are evaluated INSIDE Coq on a directed family + random cases; the first cases on which
+# they differ are judged by the ordinary correspondence comparison and the direct oracle on the real DeepDiff.
+# --------------------------------------------------------------------------
+
+SOURCE_TIES = [{
+    "name": "skipthis", "translator": "skipthis", "gen_module": "FilterGen", "equiv": ["FilterGenEquiv"],
+    "needs": ["Filter.FilterModelV", "Filter.FilterTie", "Filter.FilterTieFacts", "Filter.FilterExact", "Filter.FilterVPath",
+              "Filter.FilterInclude", "Filter.FilterExclude", "Filter.FilterWitness", "Filter.FilterHash", "Filter.FilterGuard"],
+    "sources": ["deepdiff/diff.py", "deepdiff/deephash.py", "deepdiff/helper.py"],
+    "fragment": ("DeepDiff._skip_this, DeepDiff._skip_this_key (diff.py); DeepHash._skip_this (deephash.py); add_root_to_paths, "
+                 "convert_item_or_items_into_set_else_none (helper.py); frame check of the assignments of the modelled options in "
+                 "DeepDiff.__init__ / DeepHash.__init__"),
+}]
+
+TIE_HDR = (HDR[:-1] + " Filter.FilterTie.\nFrom DDGen Require Import FilterGen.\n" + r"""
+Definition tie_strs (t : list path) (s : pystr) : bool := existsb (fun q => pystr_eqb s (render q)) t.
+Definition tie_hit_strs (t : list (path * nat)) (s : pystr) : bool :=
+  existsb (fun x => pystr_eqb s (render (fst x) ++ [cLB] ++ p_of_Z (Z.of_nat (snd x)) ++ [cRB])) t.
+Definition tie_tbl (o : option (list value)) : list value := match o with Some l => l | None => [] end.
+(* (the run assembled from the GENERATED definitions, the hand-written run) on the same arguments *)
+Definition c13_tie_pair (ud : list (pystr * pystr * pystr)) (ot : list (path * list opcode))
+    (rx_given : bool) (rxt : list path) (rxht : list (path * nat)) (exarg incarg : paths_arg) (ex inc : list pystr)
+    (TY : list ty) (cbo cbso icbo icbso : option (list value)) (c : cfg) (t1 t2 : value) : sx * sx :=
+  let RXS := if rx_given then [fun s => tie_strs rxt s || tie_hit_strs rxht s] else [] in
+  let EX := g_init_paths exarg in
+  let INC := g_init_paths incarg in
+  let CB := option_map tbl_values cbo in let CBS := option_map tbl_values cbso in
+  let ICB := option_map tbl_values icbo in let ICBS := option_map tbl_values icbso in
+  (sx_entries (run_diffv hatom_simple (tbl_udiff ud) (tbl_ops ot)
+     (fun p a b => g__skip_this RXS EX INC TY CB CBS ICB ICBS (mkLevel p a b))
+     (excl_this EX)
+     (fun p k => g__skip_this_key INC (mkLevel p None None) k)
+     (fun p i => g_DeepHash__skip_this RXS EX [] [] None None (render p ++ [cLB] ++ p_of_Z (Z.of_nat i) ++ [cRB]))
+     c t1 t2),
+   c13_case_v ud ot rxt rxht ex inc TY (tie_tbl cbo) (tie_tbl cbso) icbo icbso c t1 t2).
+""")
+
+
+def coq_paths_arg(items, shape):
+    items = list(items or ())
+    if shape == "bare" and len(items) == 1:
+        return "(PBare %s)" % core.coq_pystr(items[0])
+    return "(PItems %s)" % core.coq_list(core.coq_pystr(s) for s in items)
+
+
+def tie_expr(t1, t2, opt):
+    """Coq term of type sx * sx: (generated run, hand-written run) of one case"""
+    P = all_positions(t1, t2)
+    spec = Spec(P, opt.get("ex", ()), opt.get("rx", ()), opt.get("inc", ()))
+    hits = set_hits(t1, t2, opt, spec)[0]
+    sh = opt.get("shape") or {}
+
+    def otbl(k):
+        return "(Some %s)" % core.coq_list(cb_table(opt[k], t1, t2)) if opt.get(k) else "None"
+    return "c13_tie_pair %s %s %s %s %s %s %s %s %s %s %s %s %s %s %s %s %s" % (
+        D.coq_udiff_table(D.udiff_table(t1, t2)), D.coq_ops_table(D.opcode_table(t1, t2)),
+        core.coq_bool(bool(opt.get("rx"))),
+        core.coq_list(D.coq_pathc(p) for p in spec.rx_table()),
+        core.coq_list("(%s, %d)" % (D.coq_pathc(p), i) for p, i in hits),
+        coq_paths_arg(opt.get("ex"), sh.get("ex")), coq_paths_arg(opt.get("inc"), sh.get("inc")),
+        core.coq_list(core.coq_pystr(s) for s in opt.get("ex", ())),
+        core.coq_list(core.coq_pystr(s) for s in opt.get("inc", ())),
+        core.coq_list(TYPES[n][1] for n in opt.get("ty", ())), otbl("cb"), otbl("cbs"), otbl("icb"), otbl("icbs"),
+        D.coq_cfg(opt["zip"], opt["thr"]), V.to_coq(t1), V.to_coq(t2))
+
+
+TIE_PAIRS = [
+    ({'a': {'b': 1, 'c': 2}, 'd': [1, {'e': 1}], 'f': 'x'}, {'a': {'b': 2, 'c': 3}, 'd': [2, {'e': 2}], 'f': 'y'}),
+    ({'s': {1, 2}, 'k': 1, 'a': {'k': 1}}, {'s': {2, 3}, 'k': 2, 'a': {'k': 2, 'n': 1}}),
+    ([1, 'a', None, {'x': 1, 1: 2}], ['a', 2, 3, {'x': 2, 'y': 1, 1: 3}]),
+    ({'a': 1, 'ab': {'a': 1}, '1': 5, 2: 6}, {'a': 2, 'ab': {'a': 2}, '1': 6, 2: 7}),
+]
+TIE_CBS = [["int_mod", 2, 0], ["int_mod", 1, 0], ["str_has", ""], ["cont_or", ["int_mod", 2, 1]], ["len_ge", 0], ["num_ge", 2]]
+
+
+def tie_directed():
+    """a small, deterministic family aimed at every branch of the if / elif chain of _skip_this, at _skip_this_key,
+    at the normalisation of the two path options and at the DeepHash side: every position of a few pairs whose
+    leaves all differ x every single option x pairs of options (the chain's precedence)"""
+    out = []
+    for t1, t2 in TIE_PAIRS:
+        P = [p for p in all_positions(t1, t2)]
+        strs = [render(p) for p in P]
+        inc_ok = [render(p) for p in P if p]
+        singles = []
+        for s in strs:
+            singles.append({"ex": [s]})
+            singles.append({"rx": ["^" + re.escape(s) + "$"]})
+            singles.append({"rx": ["^" + re.escape(s)]})
+        for s in inc_ok:
+            singles.append({"inc": [s]})
+        for n in ("int", "str", "dict", "list", "NoneType", "set"):
+            singles.append({"ty": [n]})
+        for k in ("cb", "cbs", "icb", "icbs"):
+            for spec in TIE_CBS:
+                singles.append({k: spec})
+        tops = [D.uncanon_atom(p[0][1]) for p in P if len(p) == 1 and p[0][0] == "k" and isinstance(D.uncanon_atom(p[0][1]), str)]
+        for k in tops:                                  # un-rooted spellings: add_root_to_paths
+            singles.append({"ex": [k]})
+            singles.append({"inc": [k]})
+        singles.append({"ex": ["1"]})
+        singles.append({"ex": ["2"]})
+        singles.append({"ex": ["1b"]})
+        for i in range(3):                              # the DeepHash side: pseudo-paths of set members
+            for p in P:
+                if isinstance(_at(t1, p), (set, frozenset)):
+                    singles.append({"ex": ["%s[%d]" % (render(p), i)]})
+                    singles.append({"rx": [r"\[%d\]$" % i]})
+        pairs = []
+        some = strs[1:6]
+        for s in inc_ok[:6]:
+            for q in some:
+                pairs.append({"inc": [s], "ex": [q]})
+                pairs.append({"inc": [s], "rx": ["^" + re.escape(q) + "$"]})
+            for n in ("int", "str", "dict"):
+                pairs.append({"inc": [s], "ty": [n]})
+            for k in ("cb", "cbs", "icb", "icbs"):
+                pairs.append({"inc": [s], k: TIE_CBS[0]})
+                pairs.append({"inc": [s], k: TIE_CBS[3]})
+        for q in some:
+            for n in ("int", "str"):
+                pairs.append({"ex": [q], "ty": [n]})
+                pairs.append({"rx": ["^" + re.escape(q) + "$"], "ty": [n]})
+            for k in ("cb", "cbs", "icb", "icbs"):
+                pairs.append({"ex": [q], k: TIE_CBS[0]})
+                pairs.append({"ex": [q], k: TIE_CBS[3]})
+                pairs.append({"rx": ["^" + re.escape(q)], k: TIE_CBS[3]})
+        for a, b in (("ty", "cb"), ("ty", "icb"), ("cb", "cbs"), ("cb", "icb"), ("cbs", "icbs"), ("icb", "icbs")):
+            va = ["int"] if a == "ty" else TIE_CBS[0]
+            pairs.append({a: va, b: TIE_CBS[3]})
+            pairs.append({a: va, b: TIE_CBS[1]})
+        for j, o in enumerate(singles + pairs):
+            opt = dict(o, kind="tie_directed", zip=(j % 5 != 4), thr=(0 if j % 7 else 0.33))
+            shapes = ("list", "bare", "set", "tuple")
+            opt["shape"] = {k: shapes[(j + i) % 4] for i, k in enumerate(("ex", "rx", "inc", "ty")) if opt.get(k)}
+            if D.set_alias(t1, t2):
+                continue
+            out.append((t1, t2, opt))
+    return out
+
+
+def tie_random(rng, npairs, nopts):
+    out = []
+    for _ in range(npairs):
+        r = rng.random()
+        t1, t2 = gen_pair_records(rng) if r < 0.3 else gen_boundary_pair(rng) if r < 0.45 else gen_pair(rng)
+        if D.set_alias(t1, t2) or D.tag_unsafe(t1, t2):
+            continue
+        P = all_positions(t1, t2)
+        if len(P) < 3 or len(P) > 40:
+            continue
+        for opt in gen_options(rng, t1, t2, P, nopts):
+            out.append((t1, t2, opt))
+    return out
+
+
+def tie_difference(ctx, cases, shard=120):
+    """evaluate (generated run, hand-written run) inside Coq; -> (indices of the cases on which they differ, error or None)"""
+    from concurrent.futures import ThreadPoolExecutor
+    import os
+    ctx.ensure_built(HDR[:-1] + " Filter.FilterTie.")
+    gen_dir = os.path.join(ctx.scratch, "srctie")
+    files = []
+    for k in range(0, len(cases), shard):
+        fn = os.path.join(ctx.scratch, "tiediff_%d.v" % (k // shard))
+        with open(fn, "w") as f:
+            f.write("From Coq Require Import List String ZArith NArith Bool.\nImport ListNotations.\nFrom DD Require Import Base.Sx.\n")
+            f.write(TIE_HDR + "\nLocal Open Scope string_scope.\nDefinition cases : list (sx * sx) := [\n")
+            f.write(";\n".join("(%s)" % tie_expr(t1, t2, opt) for (t1, t2, opt) in cases[k:k + shard]))
+            f.write("\n].\nEval vm_compute in run_cases cases.\n")
+        files.append(fn)
+
+    def one(fn):
+        return core.sh(["coqc", "-Q", core.THEORIES, "DD", "-Q", gen_dir, "DDGen", fn], timeout=900, cwd=ctx.scratch)
+    with ThreadPoolExecutor(max_workers=core.NCPU) as ex:
+        results = list(ex.map(one, files))
+    bad, err = [], None
+    for k, (rc, out) in enumerate(results):
+        m = re.search(r'"BEGIN\n(.*)END"', out, re.S)
+        if rc != 0 or not m:
+            err = err or out[-800:]
+            continue
+        for line in m.group(1).splitlines():
+            if line.strip():
+                bad.append(k * shard + int(line.partition("\t")[0]))
+    return sorted(bad), err
+
+
+def judge_case(ctx, case, name, quiet=True):
+    """one concrete case through the property's ordinary machinery: the direct oracle on the implementation
+    (-> ctx.fail) and the correspondence comparison with the hand-written model (-> ctx.break_)"""
+    t1, t2 = rebuild(case)
+    opt = case["opt"]
+    vo = value_opts(opt)
+    bopt = dict(vo, zip=opt["zip"], thr=opt["thr"])
+    bt, bx = run_tree(t1, t2, bopt)[0], (None if vo else run_text(t1, t2, bopt))
+    rng = random.Random(1)
+    fs, nontriv, got, flags = oracle_one(t1, t2, opt, bt, bx, rng, do_indep="t1b" not in case)
+    if "t1b" in case:
+        t1b, t2b = pyval(case["t1b"]), pyval(case["t2b"])
+        gb, _ = run_tree(t1b, t2b, opt)
+        if [e[:3] for e in got] != [e[:3] for e in gb]:
+            fs.append((case, "content under the excluded path changes the entries elsewhere"))
+    ctx.evaluations += 1
+    if not quiet:
+        print("replay: unrestricted=%r\n        filtered=%r" % (bt, got))
+    verdict = {"oracle_failures": len(fs), "correspondence": "not compared"}
+    for c, what in fs:
+        if not quiet:
+            print("replay: FAILS: " + what)
+        verdict.setdefault("oracle", []).append(ctx.fail(c, what))
+    if flags.get("exact_break"):
+        ctx.break_("correspondence", flags["exact_break"])
+        verdict["exact_break"] = True
+    if not isinstance(got, tuple):
+        P = all_positions(t1, t2)
+        spec = Spec(P, opt.get("ex", ()), opt.get("rx", ()), opt.get("inc", ()))
+        a, b = flags["objs"]
+        hits, hit, inc_hit, shared = set_hits(a, b, opt, spec)
+        if not inc_hit and not (hit and shared):
+            bad = ctx.coq_cases(name, HDR, [(model_expr(a, b, opt, spec, hits), got, case)])
+            verdict["correspondence"] = "MISMATCH" if bad else "agrees"
+    else:
+        verdict["raised"] = got[1]
+    return verdict
+
+
+def on_source_tie_break(ctx, name, rec):
+    """the source tie is not intact: search for a concrete input (see the comment at the top of this section)"""
+    import os
+    status = rec.get("status")
+    info = {"status": status}
+    if not os.path.exists(os.path.join(ctx.scratch, "srctie", "FilterGen.vo")):
+        info["searched"] = ("no generated model to compare with (the translator rejected the source or its output does not compile): "
+                            "the streams of this run use their thorough-size budgets")
+        return info
+    rng = random.Random(ctx.seed ^ 0x5C13)
+    directed = tie_directed()
+    rnd = tie_random(rng, 500 if ctx.thorough else 220, 8)
+    cases = directed + rnd
+    t = time.time()
+    bad, err = tie_difference(ctx, cases)
+    info.update(directed_cases=len(directed), random_cases=len(rnd), differing=len(bad), coq_wall_s=round(time.time() - t, 1),
+                searched=("generated run vs hand-written run evaluated inside Coq (vm_compute) on %d directed + %d random "
+                          "(pair, options) cases" % (len(directed), len(rnd))))
+    if err:
+        info["coq_error"] = err
+    judged = []
+    for i in bad[:6]:
+        t1, t2, opt = cases[i]
+        case = case_dict(t1, t2, opt)
+        nf, nb = len(ctx.failures) + len(ctx.known_seen), len(ctx.breaks)
+        v = judge_case(ctx, case, "c13_tie_%d" % i)
+        v["case"] = case
+        judged.append(v)
+        if len(ctx.failures) + len(ctx.known_seen) > nf and len(ctx.failures) > 0 or len(ctx.breaks) > nb:
+            if len(ctx.failures) or len(ctx.breaks) > nb:
+                break
+    info["judged"] = judged[:6]
+    if bad and not judged:
+        info["note"] = "differing cases found but none judged"
+    return info
+
+
+# --------------------------------------------------------------------------
 def run(ctx):
-    npairs = 3000 if ctx.thorough else 400
-    nopts = 10 if ctx.thorough else 8
+    # a source tie that is not intact escalates the streams that exercise the translated fragment to their thorough size
+    big = ctx.thorough or ctx.tie_broken("skipthis")
+    npairs = 3000 if big else 400
+    nopts = 10 if big else 8
     nw = core.NCPU
     per = (npairs + nw - 1) // nw
     tasks = [(ctx.rng.randrange(1 << 30), per, nopts) for _ in range(nw)]
@@ -1670,7 +1942,7 @@ def run(ctx):
         for s in samples:
             ctx.sample(s)
     witnesses(ctx)
-    ext_stream(ctx, 1200 if ctx.thorough else 150)
+    ext_stream(ctx, 1200 if big else 150)
     with ctx.extension("ignore_order"):
         io_stream(ctx, 600 if ctx.thorough else 60)
     ctx.coq_cases("c13", HDR, cases, shard=120, label="filtered_runs")
